@@ -96,7 +96,7 @@ Print Assumptions sticky_only_breaks_ties.
    [ichildren_less] (the code's idleSynchronizingWorkersChildrenHeap.Less): an invocation without executing and without
    idle-synchronizing workers of its own (it is in the heap because of a descendant) ties with every sibling on the
    utilisation products and is compared by completion time only.  No arrangement of that heap satisfies the heap order,
-   and [minimal] (the admissible heap roots) is empty; [descend_idle] then admits every child, as the code takes
+   and [minimal] (the admissible heap roots) is empty; [descend_idle] then accepts every child, as the code takes
    whatever element 0 of the heap is. *)
 Example ichildren_less_cyclic :
   let s := fst (run (init c04w_cfg 1000) c04w_pre) in
@@ -106,5 +106,66 @@ Example ichildren_less_cyclic :
   minimal (ichildren_less s) (idle_sync_children s (mkI c04w_K [])) = [].
 Proof. exact c04w_cycle. Qed.
 
-(* NOT PROVED (see docs/areas/Sched-proofs.md):
-   Theorem no_queued_while_parked, Theorem qchildren_less_trans (transitivity of the exact score comparison). *)
+(* ---- the order on queued children is a strict partial order ---------------------------------------------------------------
+   isPreferred compares e_i * 2^(p_i/100) exactly ([score_cmp]); together with the tie-break on the time the
+   invocation last started an operation it is irreflexive and transitive, so a non-empty heap of queued children has a
+   root (unlike the heap of children holding idle workers, above). *)
+Theorem qchildren_less_irrefl : forall s i, qchildren_less s i i = false.
+Proof. exact qchildren_less_irrefl. Qed.
+Print Assumptions qchildren_less_irrefl.
+
+Theorem qchildren_less_trans : forall s i j k,
+  qchildren_less s i j = true -> qchildren_less s j k = true -> qchildren_less s i k = true.
+Proof. exact qchildren_less_trans. Qed.
+Print Assumptions qchildren_less_trans.
+
+(* ---- the searches find somebody ---------------------------------------------------------------------------------------------
+   [QPs s] / [IPs s] (ProofsFind.v): every invocation with queued operations / with parked workers exists together
+   with all its ancestors; both hold of every reachable state ([tree_consistent] below). *)
+(* assignNextQueuedTask hands the worker a task whenever something is queued in its size class queue ... *)
+Theorem assign_next_finds_queued : forall w s, NoDup (map fst (s_invs s)) -> QPs s ->
+  is_queued s (mkI (w_sk w) []) = true -> snd (assign_next_queued_task w s) = true.
+Proof. exact assign_next_finds_queued. Qed.
+Print Assumptions assign_next_finds_queued.
+
+(* ... and task.schedule finds a parked worker whenever one is parked anywhere in the size class queue of the task. *)
+Theorem schedule_finds_parked : forall fuel s invs k,
+  NoDup (map fst (s_invs s)) -> IPs s -> invs <> [] -> (forall i, In i invs -> i_sk i = k) ->
+  has_idle_sync s (mkI k []) = true -> (max_depth invs < fuel)%nat ->
+  schedule_candidates fuel s invs <> [].
+Proof. exact schedule_candidates_nonempty. Qed.
+Print Assumptions schedule_finds_parked.
+
+(* ---- tree consistency on every reachable state ---------------------------------------------------------------------------
+   (ProofsTC1.v) KW: a waiting worker is in the list of idle-synchronizing workers of its last invocation;
+   ID: idleWorkersCount of an invocation is at least the number of registered workers whose last invocation lies at or
+   below it; EC: the executing-workers count an invocation keeps for a worker is at least the number of operations of
+   the task assigned to that worker that lie at or below it; QPs / IPs as above; NQ: nothing is queued in the size class
+   queue of a waiting worker.  Hypothesis and escape are those of [sched_exclusive] (PropertiesC01.v). *)
+Theorem tree_consistent : forall cfg t0 evs, selectors_in_range (init cfg t0) evs ->
+  let s := fst (run (init cfg t0) evs) in
+  panicked (snd (run (init cfg t0) evs)) \/ (KW s /\ ID s /\ EC [] s /\ QPs s /\ IPs s /\ NQ s).
+Proof. exact tree_consistent. Qed.
+Print Assumptions tree_consistent.
+
+(* ---- no_queued_while_parked: the state predicate of C04 on every reachable state ----------------------------------- *)
+Theorem no_queued_while_parked : forall cfg t0 evs, selectors_in_range (init cfg t0) evs ->
+  panicked (snd (run (init cfg t0) evs)) \/ c04_dump (observe (fst (run (init cfg t0) evs))) = ""%string.
+Proof. exact no_queued_while_parked. Qed.
+Print Assumptions no_queued_while_parked.
+
+(* non-vacuity: the history of [ichildren_less_cyclic] with one more Execute, and a generated history *)
+Example cyclic_history_in_range : selectors_in_range (init c04w_cfg 1000) c04w_evs.
+Proof. exact c04w_in_range. Qed.
+Example cyclic_history_served : c04_dump (observe (fst (run (init c04w_cfg 1000) c04w_evs))) = ""%string.
+Proof.
+  destruct (no_queued_while_parked c04w_cfg 1000 c04w_evs c04w_in_range) as [[o [what [Ho Hp]]]|H]; [|exact H].
+  exfalso. exact (c04w_no_panic o what Ho Hp).
+Qed.
+Example generated_history_served : c04_dump (observe (fst (run (init gen_cfg gen_t0) gen_evs))) = ""%string.
+Proof.
+  destruct (no_queued_while_parked gen_cfg gen_t0 gen_evs gen_selectors_in_range) as [[o [what [Ho Hp]]]|H]; [|exact H].
+  exfalso. exact (gen_no_panic o what Ho Hp).
+Qed.
+
+(* NOT PROVED (see docs/areas/Sched-proofs.md): direct_assign_closest. *)
